@@ -8,7 +8,8 @@
 
    [reachable lost s]: s is reached from ANY set of registrations by ANY interleaving of machine steps and
    environment scripts (posts, releases of outstanding waits in any order, handler removals), where no script
-   hands the queue object it was given on into another queue event ("fresh queues": fresh_h / fresh_action).
+   hands the queue object it was given on into another queue event and no handler is registered with a `queue`
+   kwarg ("fresh queues": fresh_h / fresh_action).
    [lost = false] is the event manager with fixes/C02-queue-callback-when-handlers-removed.patch, fresh queues
    is what fixes/C02-mode-start-no-queue-forward.patch establishes for Mode.start (mode_start_fixed_fresh).
    Both hypotheses are necessary: nested_shared_queue_refuted, removed_handlers_callback_lost_refuted. *)
@@ -100,6 +101,35 @@ Theorem registry_priority_sorted :
      Forall (fun x => h_prio x >= h_prio h) pre /\ (forall y post', post = y :: post' -> h_prio y < h_prio h)).
 Proof. exact registry_priority_sorted_l. Qed.
 Print Assumptions registry_priority_sorted.
+
+(* The arguments a queue-event handler receives: data kwargs = the posted kwargs overridden by the kwargs it was
+   registered with (last_binding: a registered key wins, every other posted key passes through), queue = the `queue`
+   it was registered with, else the posted one, else a fresh QueuedEvent; a handler whose condition is false on the
+   merged kwargs is skipped without a trace; otherwise the head of the remaining snapshot is invoked first. *)
+Theorem queue_handler_kwargs :
+  (forall k d kw, kw_get k (kw_update kw d) = last_binding k d (kw_get k kw)) /\
+  (forall i d h rem s,
+    (cond_ok (h_cond h) (merged_kw d h) = false -> run_hs i d (h :: rem) s = run_hs i d rem s) /\
+    (cond_ok (h_cond h) (merged_kw d h) = true ->
+     let q := match h_kwq h with Some q => q | None => match d_kwq d with Some q => q | None => length (heap s) end end in
+     exists s2, log s2 = LArgs (kw_update (d_kw d) (h_kw h)) :: LInvoke (d_psn d) (h_id h) q :: log s /\
+      run_hs i d (h :: rem) s =
+        (let s3 := match h_body h with HSync acts => exec_actions (Some q) acts s2 | HAsync aw => async_adapter q aw s2 end in
+         if waiter_of q s3 then
+           set_disp i (mkD (d_psn d) (d_ev d) (d_kwq d) (d_kw d) (d_snap d) rem (DSleep q (nev s3)))
+             (upd_nev (upd_heap s3 (set_nth q (mkQ (q_waiter match nth_error (heap s3) q with Some o => o | None => mkQ true None end)
+                                                    (Some (nev s3))) (heap s3))) (S (nev s3)))
+         else run_hs i d rem s3))).
+Proof. exact queue_handler_kwargs_l. Qed.
+Print Assumptions queue_handler_kwargs.
+
+Example queue_handler_kwargs_sat :
+  let s := env_run false default_fuel ex_env2 (init_state ex_regs) in
+  existsb (obs_eqb (LArgs [(1, 7)])) (log s) = true /\ existsb (obs_eqb (LArgs [(1, 4)])) (log s) = true /\
+  existsb (obs_eqb (LInvoke 0 2 2)) (log s) = true /\
+  last_binding 1 [(1, 7)] (kw_get 1 [(1, 4)]) = Some 7.
+Proof. exact ex_args. Qed.
+Print Assumptions queue_handler_kwargs_sat.
 
 (* relay: handler number i is called with the posted kwargs updated by the dict results of handlers 0..i-1 (each
    applied to what that handler saw); the callback gets the final kwargs *)
